@@ -37,6 +37,7 @@ PROPS = {
         'must_observe': ['grid_rows'],
     },
     'C14': {
+        'legs': {'thorough': ['miri']},
         'level': 'exploration',
         'technique': "offline checker using Python's own list/str slice semantics over a recorded event log of real renders; complete grid of lengths x parameter triples",
         'claim': 'For lengths 0-8 and 12, arrays and multi-byte strings, every index and every (start, stop, step) triple over a parameter set '
@@ -85,6 +86,7 @@ PROPS = {
         'must_observe': ['sorts_verified', 'uniques_verified', 'group_bys_verified', 'nth_verified'],
     },
     'C17': {
+        'legs': {'thorough': ['miri']},
         'level': 'exploration',
         'technique': 'matrix enumeration with a panic recorder (55 built-ins x 57 receivers x declared-argument states absent/right/wrong kind) + per-built-in contract oracles on random hostile strings and numbers',
         'claim': 'The full matrix is enumerated in both tiers: every built-in with every receiver of the pool, each declared argument absent, of the right kind at boundary values and of each wrong kind, '
@@ -106,6 +108,7 @@ PROPS = {
         'must_observe': ['templates_compared', 'identity_checks', 'respelling_groups'],
     },
     'C06': {
+        'legs': {'thorough': ['asan', 'fuzz']},
         'level': 'exploration',
         'technique': 'totality monitor: panic recorder + supervised child processes (stack overflow/abort attribution) + per-case CPU watchdog over nesting sweeps, length sweeps, corpus mutation, token soup and accepted delimiter sets',
         'claim': 'add_raw_template and render_str are fed (1) every recursive construct nested 1..60 deep and far beyond the limits, (2) every loop-parsed construct chained 10^2..10^4 (quick) / 10^6 (thorough) times, '
@@ -140,6 +143,7 @@ PROPS = {
         'must_observe': ['roundtrips_ok', 'print_comparisons', 'unrepresentable_keys_refused'],
     },
     'C18': {
+        'legs': {'thorough': ['miri', 'tsan']},
         'level': 'fault_enumeration',
         'technique': 'channel differential + writer fault enumeration (every write call, byte offsets, 4 failure kinds, short writes) + purity digest + concurrent-vs-sequential comparison on a shared instance; Miri and ThreadSanitizer legs in the thorough tier',
         'claim': 'For generated multi-template programs (inheritance with super(), includes, components with bodies, loops, captures, both write sinks, autoescape on) every render/render_block/render_component/render_str result is compared with the bytes '
@@ -162,6 +166,7 @@ PROPS = {
         'must_observe': ['chunks_aligned', 'merged_groups', 'jumps_checked', 'differential_renders', 'render_end_events'],
     },
     'C07': {
+        'legs': {'thorough': ['miri', 'asan', 'fuzz']},
         'level': 'exploration',
         'technique': 'totality monitor (panic recorder, supervised children, UTF-8 validator on raw render_to bytes) + hook-based stack-balance invariant at the end of every interpreter run + registry monitor (unknown names injected at every syntactic position must be rejected at registration, never discovered while rendering)',
         'claim': '(A) generated multi-template programs are rendered whole, per block and per component against contexts whose variables are rebound to ~65 hostile values (bytes incl. invalid UTF-8, 128-bit extremes, NaN/inf/-0.0, undefined inside containers, 200-element containers, 5 kB strings, depth-8 nesting); '
@@ -236,6 +241,7 @@ PROPS = {
         'must_observe': ['context_dumps_compared', 'rejections_agree', 'api_template_pairs', 'escape_checks', 'priority_checks', 'recursion_checks'],
     },
     'C01': {
+        'legs': {'thorough': ['miri']},
         'level': 'exploration',
         'technique': 'two observation modes over generated routing programs: default escaper with disjoint data/text alphabets (no raw special may reach the output), and a marking escape function installed through the public set_escape_fn whose private-use brackets give the exact number of escapings of every data character, with an event count of escaper calls',
         'claim': 'A route generator sends a source (context string, map field, array item, nested field, literal; incl. strings made only of specials) through 1-6 routing steps drawn from 19 kinds (set, loops in captures, set-blocks, filter sections, includes, component arguments/rest/bodies, ~, ternary, or, index, slice, default, first, join, upper, replace, map-literal field, function result) '
